@@ -252,7 +252,9 @@ impl Interp {
                 Ok(())
             }
             V::Map(m) => {
-                if let Some(t) = m.type_name() {
+                // the type prefix is the object's own @type or the first one along its @base chain
+                let t = type_name(v);
+                if m.meta.borrow().is_some() && t != "Map" && t != "Object" {
                     out.push_str(&t);
                     out.push(' ');
                 }
@@ -1890,6 +1892,16 @@ pub fn match_pattern<'a>(
                         Ok(true)
                     }
                 }
+            }
+            Pat::TypedMap(inner, h) => {
+                if in_match {
+                    if !hint_matches(&ip, &v, h)? {
+                        return Ok(false);
+                    }
+                } else {
+                    check_hint(&ip, &v, h)?;
+                }
+                match_pattern(ip.clone(), (**inner).clone(), v.clone(), binds, in_match).await
             }
             Pat::Map(entries) => {
                 for (k, rebind, h) in entries {
